@@ -603,7 +603,7 @@ class Ctx:
             st["outcomes"][kind] = st["outcomes"].get(kind, 0) + 1
             if nontrivial is None or nontrivial(c, i):
                 self.nontrivial.add(hashlib.sha256(c.encode()).digest()[:12])
-            if i == "na" and m != "na":
+            if (i == "na" and m != "na") or (i.endswith(" | na") and c.startswith("na ") and not m.endswith(" | na")):
                 # the hook reports that this backend is not compiled in / not supported by this CPU: nothing to compare
                 st["not_available"] = st.get("not_available", 0) + 1
             elif i != m:
